@@ -30,7 +30,8 @@ def build_sets(ctx):
         if kind in ('syntax', 'mixed'):
             files.append({'name': 'bad_syntax.st', 'kind': 'syntax', 'data': BAD_TEXTS['syntax'].encode()})
         if kind == 'lexical':
-            files.append({'name': 'bad_lex.st', 'kind': 'lexical', 'data': BAD_TEXTS['lexical'].encode()})
+            # a program with one invalid character, or a file of nothing but invalid characters (no token at all)
+            files.append({'name': 'bad_lex.st', 'kind': 'lexical', 'data': rng.choice([BAD_TEXTS['lexical'], BAD_TEXTS['lexical'], '?', '$$$', '?\n', '\u00e9']).encode()})
         if kind == 'undecodable':
             files.append({'name': 'binary.st', 'kind': 'undecodable', 'data': UNDECODABLE})
         rng.shuffle(files)
